@@ -1,4 +1,5 @@
 (** * The documented shapes of the data encodings (closed forms) and independent decoders (C12) *)
+From Coq Require Export NArith.
 From LC Require Export Spec.Beta.
 
 Fixpoint iter_app (n : nat) (f x : term) : term :=
@@ -117,3 +118,23 @@ Fixpoint dec_bits (t : term) : option nat :=
   end.
 Definition dec_binary (t : term) : option nat :=
   match t with Abs (Abs (Abs b)) => dec_bits b | _ => None end.
+
+(** the same encoding and decoder over binary numbers [N], so that numerals beyond what a unary [nat] can
+    represent in practice (2^32, usize::MAX) can be computed; [binary_N n = binary (N.to_nat n)] is proved
+    in Proofs/BinaryArith.v *)
+Fixpoint bits_of_pos (p : positive) : list bool :=
+  match p with xH => [true] | xO q => false :: bits_of_pos q | xI q => true :: bits_of_pos q end.
+Definition bits_of_N (n : N) : list bool := match n with N0 => [] | Npos p => bits_of_pos p end.
+Definition binary_N (n : N) : term := Abs (Abs (Abs (bits_term (bits_of_N n)))).
+Fixpoint dec_bits_N (t : term) : option N :=
+  match t with
+  | Var 3 => Some 0%N
+  | App (Var 2) r => option_map N.double (dec_bits_N r)
+  | App (Var 1) r => option_map N.succ_double (dec_bits_N r)
+  | _ => None
+  end.
+Definition dec_binary_N (t : term) : option N :=
+  match t with Abs (Abs (Abs b)) => dec_bits_N b | _ => None end.
+(** a number from its bits, most significant first (used by the test driver to read large numbers) *)
+Definition N_of_bits_msb (bs : list bool) : N :=
+  fold_left (fun acc (b : bool) => if b then N.succ_double acc else N.double acc) bs 0%N.
